@@ -374,7 +374,7 @@ pub fn configs(tier: Tier) -> (Vec<Cfg>, usize) {
     let lens = vec![0, 1, 2, 3, 7, 1000, u64::MAX];
     let mut v = vec![];
     let depth = match tier {
-        Tier::Quick => 7,
+        Tier::Quick => 8,
         Tier::Thorough => 10,
     };
     for max_segments in [1usize, 2, 3] {
@@ -386,7 +386,7 @@ pub fn configs(tier: Tier) -> (Vec<Cfg>, usize) {
             fabricate: true,
         });
     }
-    if tier == Tier::Thorough {
+    {
         // entries exactly at the segment boundary and many tiny entries
         v.push(Cfg {
             segment_size: 1024,
@@ -398,7 +398,7 @@ pub fn configs(tier: Tier) -> (Vec<Cfg>, usize) {
         v.push(Cfg {
             segment_size: 2048,
             max_segments: 4,
-            sizes: vec![700, 2048, 5000],
+            sizes: vec![700, 2047, 2048, 5000],
             lens,
             fabricate: true,
         });
@@ -412,7 +412,7 @@ pub fn run(tier: Tier) -> i32 {
     let (cfgs, depth) = configs(tier);
     let mut per_cfg = vec![];
     for cfg in cfgs.iter() {
-        let depth = if cfg.sizes.len() > 4 { depth.min(if tier == Tier::Quick { 7 } else { 8 }) } else { depth };
+        let depth = if cfg.sizes.len() > 4 { depth.min(if tier == Tier::Quick { 6 } else { 8 }) } else if cfg.segment_size != 1024 && tier == Tier::Quick { 7 } else { depth };
         let params = Params {
             depth_by_devs: vec![depth],
             max_states: 5_000_000,
